@@ -187,6 +187,9 @@ pub enum TyperError {
     /// Enumeration values are restricted in which types they can take
     EnumValueMustBeInteger(SourceLocation),
 
+    /// The implicit value of an enumerator does not fit in the type of the previous value
+    EnumValueOverflow(SourceLocation),
+
     /// Function has a parameter which must have a default argument
     DefaultArgumentMissing(SourceLocation),
 
@@ -932,6 +935,11 @@ impl CompileError for TyperExternalError {
             ),
             TyperError::EnumTypeCanNotBeDeduced(loc, min, max) => w.write_message(
                 &|f| write!(f, "enum range {min} to {max} can not fit in any type"),
+                *loc,
+                Severity::Error,
+            ),
+            TyperError::EnumValueOverflow(loc) => w.write_message(
+                &|f| write!(f, "enum value overflows the type of the previous value"),
                 *loc,
                 Severity::Error,
             ),
